@@ -7,7 +7,7 @@ for f in sorted(glob.glob("/verif/seeded/*/meta.json")):
     d = os.path.basename(os.path.dirname(f))
     first = (m.get("check_first_violations") or [""])[0]
     sub = first.split("sub-oracle=")[1].split(" ")[0] if "sub-oracle=" in first else ""
-    rows.append((m["property"], d, "yes" if m.get("confirmed") else "NO", "caught" if m.get("caught") else ("MISSED (caught by %s)" % m["caught_by_other_check"] if m.get("caught_by_other_check") else "MISSED"),
+    rows.append((m["property"], d, "yes" if m.get("confirmed") else "NO", "caught" if m.get("caught") else ("MISSED (caught by %s)" % m["caught_by_other_check"] if m.get("caught_by_other_check") else ("outside the property as stated (see meta.json)" if m.get("outside_property") else "MISSED")),
                  m.get("check_cmd", "").split(" --patch")[0].replace("tools/mutate.py ", ""), sub,
                  (m.get("needs_to_manifest", "").split("\n")[0])[:110]))
 with open("/verif/seeded/INDEX.md", "w") as fh:
